@@ -47,7 +47,7 @@ struct KeyLess {
 };
 typedef std::map<Bytes, Bytes, KeyLess> TMap;
 
-enum { NULLKEY = 0x100 };
+enum { NULLKEY = 0x100, SELFREF = 0x400 };
 enum { T_PUT, T_GET, T_REMOVE, T_CLEAR, T_SIZE, T_MIN, T_MAX, T_WALK, T_ABANDON, T_NEAREST, T_LOCKEDWALK, T_BULK, T_DEBUG, T_NOPS };
 static const std::vector<std::string> T_NAMES = {"put", "get", "remove", "clear", "size", "find_min", "find_max", "walk", "abandon",
                                                  "find_nearest", "lockedwalk", "bulk", "debug"};
@@ -128,7 +128,7 @@ struct TreeWorld : World {
             op.k = wpick(r, {{30, T_PUT}, {25, T_REMOVE}, {1, T_CLEAR}, {6, T_WALK}, {5, T_ABANDON}, {30, T_NEAREST}});
         op.a = key();
         switch (op.k) {
-        case T_PUT: op.b = (int)r.below(1 << 20); op.c = gen_vlen(r, 300); op.d = putd(); break;
+        case T_PUT: op.b = (int)r.below(1 << 20); op.c = gen_vlen(r, 300); op.d = putd(); if ((op.d & 3) == 3 && r.chance(1, 4)) op.c = gen_fmt_len(r); break;
         case T_GET: op.d = (int)r.below(2) | ((str ? (int)r.below(3) : 0) << 1); break;
         case T_REMOVE: op.d = str ? (int)r.below(2) : 0; break;
         case T_LOCKEDWALK: op.d = (int)r.below(2); break;
@@ -144,7 +144,8 @@ struct TreeWorld : World {
         case T_BULK: op.a = (int)r.below(4); op.b = r.range(2, Uc); break;
         default: break;
         }
-        if (prop == "C14" && r.chance(1, 8) && (op.k == T_PUT || op.k == T_GET || op.k == T_REMOVE)) { op.d &= ~3; op.d |= NULLKEY; }
+        if (mode != "threads" && op.k == T_PUT && r.chance(1, 25)) op.d = SELFREF;
+        if (prop == "C14" && r.chance(1, 8) && (op.k == T_PUT || op.k == T_GET || op.k == T_REMOVE)) { op.d &= ~(3 | SELFREF); op.d |= NULLKEY; }
         (void)g;
         return op;
     }
@@ -221,6 +222,14 @@ struct TreeWorld : World {
             int api = op.d & 3; bool ok = false;
             CallerBuf kb(k), vb(v);
             if (op.d & NULLKEY) { TCALL(x, ok = (api == 0) ? t->putobj(t, nullptr, 0, vb.p, vb.n) : t->put(t, nullptr, vb.p, vb.n)); return ok ? R_ok() : R_fail(); }
+            if (op.d & SELFREF) {
+                size_t n = 0; void *p; TCALL(x, p = t->getobj(t, kb.p, kb.n, &n, false));
+                if (!p || n == 0) return R_ok("skip");
+                size_t off = (size_t)op.c % n;
+                TCALL(x, ok = t->putobj(t, kb.p, kb.n, (char *)p + off, n - off));
+                x.st.add("probe.put_from_own_value");
+                return ok ? R_ok() : R_fail();
+            }
             if (api == 0 && v.empty()) {
                 // replacing an existing value by "no value" is outside every statement: only issue it when the key has no value yet
                 void *cur; size_t cs; sim_fault_suspend(true); TCALL(x, cur = t->getobj(t, kb.p, kb.n, &cs, false)); sim_fault_suspend(false);
@@ -480,6 +489,7 @@ Result TreeModel::apply(const Op &op) {
     switch (op.k) {
     case T_PUT: {
         if (op.d & NULLKEY) return R_fail();
+        if (op.d & SELFREF) { auto it = m.find(w->key(op.a)); if (it == m.end() || it->second.empty()) return R_ok("skip"); it->second = it->second.substr((size_t)op.c % it->second.size()); return R_ok(); }
         Bytes k = w->key(op.a), v = w->value(op);
         if ((op.d & 3) >= 2) v = Bytes(v.c_str()) + Bytes(1, '\0');   // string APIs store strlen+1 bytes
         auto it = m.find(k);
